@@ -121,7 +121,6 @@ var c13StmtCtx = []struct {
 	{"after return in case body", "switch (c1) { case 1 { return 1; ", " } }", false},
 	{"after return at top level", "return 1; ", "", false},
 	{"before return in if body", "if (c1) { ", " return 1; }", false},
-
 }
 
 // contexts used for `local` only: function definitions (also nested ones) that are
